@@ -191,12 +191,33 @@ def run(ctx: Ctx, env):
     # ---- O5 termination ------------------------------------------------------------------------------------
     pci = repo.classes[g.parser_class]
     lci = repo.classes[g.lexer_class]
+    # `while` loops: only worklist loops whose every iteration pops one item and pushes parts of it (structural descent on a
+    # finite tree) are accepted; the interpreter verifies the form while evaluating the callbacks and reports it as an event
+    verified = set()
+    not_descending: Dict[int, str] = {}
+    for p in g.productions:
+        for x in kf.prod_paths.get(p.index, []):
+            for ev in x.events:
+                if ev.kind == "while" and ev.data.get("structural"):
+                    verified.add(ev.data.get("node_line"))
+                if ev.kind == "while_not_descending":
+                    not_descending[ev.data.get("node_line")] = ev.data.get("pushed", "")
+    for name_, paths_ in kf.token_paths.items():
+        for x in paths_:
+            for ev in x.events:
+                if ev.kind == "while" and ev.data.get("structural"):
+                    verified.add(ev.data.get("node_line"))
     for ci in (pci, lci):
         for name, fn in ci.methods.items():
             for n in ast.walk(fn):
                 if isinstance(n, ast.While):
-                    ctx.fail("O5.no-while", f"{ci.name}.{name}", "`while` loop in a parser/lexer callback: termination is not structural",
-                             gm.loc(n))
+                    if n.lineno in not_descending:
+                        ctx.fail("O5.while-descends", f"{ci.name}.{name}", f"the worklist loop pushes `{not_descending[n.lineno]}`, which is not a part of the "
+                                 "item it just popped: nothing shrinks, the loop need not terminate", gm.loc(n), "a/b/c eq 1")
+                        continue
+                    ctx.check(n.lineno in verified, "O5.while-descends", f"{ci.name}.{name}",
+                              "`while` loop in a parser/lexer callback that was not shown to terminate by structural descent "
+                              "(worklist form: pop one item, push only parts of it)", gm.loc(n))
     rec: Dict[str, str] = {}
     for p in g.productions:
         for x in kf.prod_paths.get(p.index, []):
